@@ -47,6 +47,11 @@ type builtMsg struct {
 }
 
 func buildMessage(rt *rapid.T, avoid map[string]bool) builtMsg {
+	if len(avoid) == 0 && gen.Pick(rt, "from_decoded_parts", 10) == 0 {
+		if bm, ok := transplantMessage(rt); ok {
+			return bm
+		}
+	}
 	g := gen.New(rt, drawBudget(rt))
 	for k := range avoid {
 		g.Avoid[k] = true
@@ -131,6 +136,11 @@ func TestC01(t *testing.T) {
 		}
 		m, n, kind := g.Message()
 		bm := builtMsg{m, n, kind, g.Labels}
+		if gen.Pick(rt, "from_decoded_parts", 10) == 0 {
+			if tb, ok := transplantMessage(rt); ok {
+				bm = tb // a flow-mod / group-mod / packet-out put together from decoded parts (transplant_test.go)
+			}
+		}
 		c.Eval()
 		addLabels(c, bm.labels)
 		c.Label("kind=" + bm.kind)
@@ -145,9 +155,11 @@ func TestC01(t *testing.T) {
 			keep := append([]byte{}, b1...)
 			for i, k := 0, 1+gen.Pick(rt, "n_later", 3); i < k; i++ {
 				g2 := gen.New(rt, drawBudget(rt))
-				m2, _ := g2.MessageOf(bm.kind)
-				if gen.Pick(rt, "other_kind", 2) == 0 {
+				var m2 util.Message
+				if gen.Pick(rt, "other_kind", 2) == 0 || strings.Contains(bm.kind, "(from decoded parts)") {
 					m2, _, _ = g2.Message()
+				} else {
+					m2, _ = g2.MessageOf(bm.kind)
 				}
 				safeMarshal(m2)
 			}
